@@ -183,28 +183,6 @@ Contract(
 )
 
 
-# --- the notification pool (contract of ThreadPool.enqueue as seen by its callers; proved under C09) ---------------------
-Contract(
-    "jsonrpclib.threadpool.ThreadPool.enqueue",
-    kinds={"method": "val"},
-    requires=[],
-    ensures=[
-        ("accepted", lambda c: implies(z3.Or(V.is_fun(c.a.method)), z3.And(
-            implies(c.returns, z3.And(V.is_obj(c.ret), c.fresh_obj(c.ret),
-                                      c.gnew("pool_accepted") == _appended(c.gold("pool_accepted"),
-                                                                           tup(c.a.self, c.a.method, c.a.args, c.a.kwargs)))),
-            implies(c.raised, c.gnew("pool_accepted") == c.gold("pool_accepted")))), ("C04", "C09", "C12")),
-        ("nothing_runs_inline", lambda c: z3.And(c.gnew("call_log") == c.gold("call_log"),
-                                                 c.gnew("env_calls") == c.gold("env_calls")), ("C04",)),
-        ("accepts_callables_when_unbounded", lambda c: implies(z3.And(V.is_fun(c.a.method), pool_unbounded(Val.ref(c.a.self))),
-                                                               c.returns), ("C04", "C09")),
-    ],
-    modifies=[Ghost("pool_accepted"), Ghost("call_log"), Ghost("env_calls"), Fresh("_logger"), Fresh("_done_event"),
-              Fresh("_FutureResult__callback"), Fresh("_FutureResult__extra")],
-    props=("C09",),
-)
-
-
 def _appended(lst, item):
     return V.VList(Val.llen(lst) + 1, z3.Store(Val.lat(lst), Val.llen(lst), item))
 
@@ -396,10 +374,9 @@ Contract(
             z3.And(c.gnew("call_log") == c.gold("call_log"), c.gnew("env_calls") == c.gold("env_calls"),
                    Val.llen(c.gnew("pool_accepted")) == Val.llen(c.gold("pool_accepted")) + 1,
                    (lambda task: z3.And(
-                       z3.Select(Val.tat(task), 0) == c.old(c.a.self, POOLF),
-                       z3.Select(Val.tat(z3.Select(Val.tat(task), 2)), 0) == get(c.a.request, "method"),
-                       z3.Select(Val.tat(z3.Select(Val.tat(task), 2)), 1) == get(c.a.request, "params"),
-                       implies(z3.Not(V.is_none(c.a.dispatch_method)), z3.Select(Val.tat(task), 1) == c.a.dispatch_method)))(
+                       z3.Select(Val.tat(z3.Select(Val.tat(task), 1)), 0) == get(c.a.request, "method"),
+                       z3.Select(Val.tat(z3.Select(Val.tat(task), 1)), 1) == get(c.a.request, "params"),
+                       implies(z3.Not(V.is_none(c.a.dispatch_method)), z3.Select(Val.tat(task), 0) == c.a.dispatch_method)))(
                        z3.Select(Val.lat(c.gnew("pool_accepted")), Val.llen(c.gold("pool_accepted")))))), ("C04",)),
         ("inline_runs_at_most_once", lambda c: implies(
             z3.And(z3.Or(V.is_none(c.old(c.a.self, POOLF)), _answered(c)),
